@@ -261,6 +261,36 @@ func crashWorkload(ctx *vrun.Ctx, f *Factory, path []tlc.Step, cache uint64, nes
 		coll.add(f.Sc, recorded)
 	}
 	finalTip := f.ID(&base.chain.BestSnapshot().Hash)
+	if prune != 0 {
+		// Assumption of the pruned workloads (as of a real pruned node, whose prune target is far larger than any
+		// reorganisation): pruning removes old blocks only, never a block of the scenario, which a
+		// reorganisation or a recovery may have to read again.
+		_ = base.real.View(func(tx database.Tx) error {
+			if len(f.Pre) > 0 {
+				if _, err := tx.FetchBlock(f.Pre[0].Hash()); err != nil {
+					ctx.AddExtra("pruned_workloads_where_old_blocks_were_pruned", 1)
+				}
+			}
+			return nil
+		})
+		for b := range ack {
+			gone := false
+			_ = base.real.View(func(tx database.Tx) error {
+				if _, err := tx.FetchBlock(f.Hash(b)); err != nil {
+					gone = true
+					if os.Getenv("VERIF_DEBUG") != "" {
+						fmt.Fprintf(os.Stderr, "pruned scenario block %d of %v: %v (sizes %v)\n", b, ops, err, func() []int { var z []int; for i := 1; i <= f.Sc.N; i++ { z = append(z, f.Blocks[i].MsgBlock().SerializeSize()) }; return z }())
+					}
+				}
+				return nil
+			})
+			if gone {
+				ctx.AddExtra("pruned_workloads_skipped_scenario_block_pruned", 1)
+				base.close()
+				return nil
+			}
+		}
+	}
 	base.close()
 	if !contains(final["exp"].F("tips"), finalTip) {
 		// reported by C02, not here
@@ -309,7 +339,34 @@ func crashWorkload(ctx *vrun.Ctx, f *Factory, path []tlc.Step, cache uint64, nes
 			}
 			tip := f.ID(&n.chain.BestSnapshot().Hash)
 			rp := map[string]any{"scenario": f.String(), "cache": cache, "workload": fmt.Sprint(ops), "crash_after_commit": k, "phase": what}
-			if !contains(final["exp"].F("tips"), tip) {
+			// a crash loses the orphan pool, so the order in which competing branches become active can legitimately
+			// differ from the uninterrupted run: any flawless branch with the same (maximal) work is a correct end state
+			sameWork := func() bool {
+				if tip < 0 {
+					return false
+				}
+				ws := func(b int) int {
+					w := 0
+					for _, x := range f.Sc.Path(b) {
+						if x != 0 {
+							w += f.Sc.Work[x]
+						}
+					}
+					return w
+				}
+				for _, x := range f.Sc.Path(tip) {
+					if f.Sc.Flaw[x] != "none" {
+						return false
+					}
+				}
+				for _, e := range final["exp"].F("tips").Set() {
+					if ws(e.Int()) == ws(tip) {
+						return true
+					}
+				}
+				return false
+			}
+			if !contains(final["exp"].F("tips"), tip) && !sameWork() {
 				ctx.Violation("no-convergence", fmt.Sprintf("%s [%s]: after feeding the blocks again the tip is block %d; an uninterrupted run ends at %v", desc(k), what, tip, final["exp"].F("tips").Go()), rp)
 				return false
 			}
